@@ -11,7 +11,9 @@ TRUSTED = ["encoding/json (Marshal of string / RawMessage / *Error, Unmarshal in
            "the harness turns an abstract message (id, method, params, result, error) into library calls; handlers return "
            "the given raw values"]
 ASSUMPTIONS = ["method names are valid UTF-8", "ids are JSON string or number literals and valid UTF-8 (client ids are decimal counters)",
-               "params / results / error data are valid JSON texts and valid UTF-8 (what json.Marshal returns for a marshalable value)",
+               "params / results / error data are valid JSON texts and valid UTF-8 (what json.Marshal returns for a marshalable value); "
+               "error data that are not JSON at all are inside the domain too: since fix F16/F17 jmessage.toJSON writes the error "
+               "without them (c13_undeliverable_error_data_dropped; before the fix the record was not sent: c13_refuted_without_F16)",
                "nesting depth of values below encoding/json's limit of 10000 (minus the two levels of the envelope)"]
 
 
